@@ -19,10 +19,11 @@
      section  b.mutex.Lock(); modify; b.cond.Broadcast(); b.mutex.Unlock()  — one atomic step, enabled when the
      Buffer mutex is free.
 
-   [fixed = false] is the code as it is in /repo: the timer goroutine re-broadcasts holding only the inner
-   mutex of cleanup().  [fixed = true] is the repaired protocol: the timer goroutine's deferred function does
+   [fixed = true] is the code as it is in /repo since commit 989b0cf (finding F3): the timer goroutine's deferred function does
        b.mutex.Lock(); mutex.Lock(); timer = nil; if broadcast { b.cond.Broadcast(); broadcast = false };
        mutex.Unlock(); b.mutex.Unlock().
+   [fixed = false] is the protocol before that commit: the timer goroutine re-broadcast holding only the inner mutex of
+   cleanup() (kept for the refutation theorem).
    [cooldown_pos] is  b.cleaner.Cooldown > 0.
 
    The inner mutex
